@@ -206,6 +206,16 @@ def contract(words):
         except (ValueError, IndexError): return "malformed call word %r" % w
     return None
 
+def announces_huge(hextext):
+    """the text contains a number >= 2^22: ids index tables (theory terms and elements up to 2^32-1, atoms up to 2^31-1), so the readers' consumers
+    grow a table towards that size — MemoryRegion::grow reallocates on every push, which the sanitizer's allocator turns into a copy each time:
+    minutes before the allocation cap refuses.  Slow by design and outside the claim, like the allocations the cap refuses at once."""
+    try: t = bytes.fromhex(hextext if hextext != "-" else "")
+    except ValueError: return False
+    return any(w.isdigit() and len(w) >= 7 and int(w) >= 2**22 for w in t.replace(b"-", b" ").split())
+
+def slow_line(line): return announces_huge(line.split(" ")[-1])
+
 def evaluate(ctx, cases):
     rng = ctx.rng
     for c in cases:
@@ -217,7 +227,7 @@ def evaluate(ctx, cases):
             h = c["text"] or "-"
             for cmd in ("ar C", "ar I", "tr C", "tr I"): lines.append("%s %s" % (cmd, h)); meta.append((ci, cmd))
             for o in c["opts"]: lines.append("so %s %s" % (o, h)); meta.append((ci, "so " + o))
-        impl = ctx.impl(lines, B=B)
+        impl = ctx.impl(lines, B=B, exempt=slow_line)
         if B == BSIZES[0]: model = ctx.model(lines)
         delivered = set()
         for k, ((ci, cmd), l, i) in enumerate(zip(meta, lines, impl)):
@@ -226,6 +236,7 @@ def evaluate(ctx, cases):
             if runner.is_oom(i):
                 ctx.dist["allocation of an announced size refused (outside the claim)"] += 1; continue
             if not isinstance(i, str):
+                if "SLOW-BY-DESIGN" in i[2]: ctx.dist["table grown towards an announced id (slow under the sanitizer; outside the claim)"] += 1; continue
                 if "TIMEOUT after" in i[2]: ctx.fail("C04:hang", "the reader does not terminate (BUF_SIZE=%d, %s)" % (B, cmd), cc, {"stderr": i[2][-300:]}); continue
                 ctx.fail("C04:crash", "reader crashed / sanitizer report (BUF_SIZE=%d, %s)" % (B, cmd), cc, {"stderr": i[2][-1500:]}); continue
             ws = i.split(" ")
@@ -254,11 +265,13 @@ def evaluate(ctx, cases):
     for ci, c in enumerate(cases[:npipe]):
         for fl in (("00", "10", "01", "11") if ctx.tier == "thorough" or c.get("all_flags") else ("10", "%d%d" % (ci % 2, ci // 2 % 2))):
             plines.append("ap %s %s" % (fl, c["text"] or "-")); pmeta.append((ci, fl))
-    for (ci, fl), i in zip(pmeta, ctx.impl(plines, B=BSIZES[0])):
+    for (ci, fl), i in zip(pmeta, ctx.impl(plines, B=BSIZES[0], exempt=slow_line)):
         ctx.dist["pipeline " + (i.split(" ")[0].split(":")[0] if isinstance(i, str) else "crash")] += 1
         if runner.is_oom(i): continue
         if not isinstance(i, str):
             err = i[2]
+            if "SLOW-BY-DESIGN" in err: ctx.dist["table grown towards an announced id (slow under the sanitizer; outside the claim)"] += 1; continue
+            if "TIMEOUT after" in err: ctx.fail("C04:hang", "conversion pipeline (potassco,text)=%s does not terminate" % fl, dict(cases[ci], pipe=fl), {"stderr": err[-300:]}); continue
             leak = "LeakSanitizer" in err or "detected memory leaks" in err
             ctx.fail("C04:pipeline-leak" if leak else "C04:pipeline-crash", ("conversion pipeline (potassco,text)=%s " % fl) + ("leaks memory" if leak else "crashed / sanitizer report"),
                      dict(cases[ci], pipe=fl), {"stderr": err[-1500:]})
@@ -285,6 +298,8 @@ def evaluate(ctx, cases):
     results = [None if x is None else x if x == "skip" else _R(x) for x in json.loads(hr.stdout)]
     for (c, fl, B), r in zip(jobs, results):
         if r == "skip": ctx.dist["lpconvert not run (earlier runs did not terminate)"] += 1; continue
+        if r is None and announces_huge(c["text"]):
+            ctx.dist["table grown towards an announced id (slow under the sanitizer; outside the claim)"] += 1; continue
         if r is None:
             ctx.fail("C04:lpconvert-hang", "lpconvert %s does not terminate (BUF_SIZE=%d)" % (" ".join(fl), B), dict(c, flags=fl, B=B), {}); continue
         ctx.dist["lpconvert rc=%d" % r.returncode] += 1
